@@ -10,7 +10,7 @@ from xv.props import c01 as _c01
 
 ID = "C05"
 LEVEL = "exploration"
-N_QUICK, N_THOROUGH = 150000, 3000000
+N_QUICK, N_THOROUGH = 220000, 3000000
 T_QUICK, T_THOROUGH = 70, 1500
 FORMS = ["plain", "plain", "plain", "kwargs", "nd_c", "nd_f", "nd_strided", "nd_swapped", "nd_obj", "xobj_same", "xobj_other", "nested_xobj"]
 FLOORS = {"objects_decoded": 4000, "parts_checked": 100000, "seen:st": 1000, "seen:str": 500, "seen:ref": 300,
